@@ -185,11 +185,17 @@ Proof. intros a. unfold seed_Z. now rewrite Zabs2N.inj_opp. Qed.
 
 (** the key: 32-bit words, at least one, least significant first, denoting the seed *)
 
+Lemma key_words_unfold : forall f n,
+  key_words (S f) n = (n mod w32) :: (if n / w32 =? 0 then [] else key_words f (n / w32)).
+Proof.
+  intros f n. cbn [key_words]. rewrite trunc32_mod, N.shiftr_div_pow2. reflexivity.
+Qed.
+
 Lemma key_words_value : forall fuel n, n < 2 ^ (32 * N.of_nat fuel) -> key_value (key_words fuel n) = n.
 Proof.
   induction fuel; intros n H.
   - simpl in H. assert (n = 0) by lia. subst. reflexivity.
-  - cbn [key_words key_value]. pose proof (N.div_mod n w32 ltac:(discriminate)) as DM.
+  - rewrite key_words_unfold. cbn [key_value]. pose proof (N.div_mod n w32 ltac:(discriminate)) as DM.
     destruct (N.eqb_spec (n / w32) 0) as [E|E].
     + simpl. rewrite E in DM. lia.
     + rewrite IHfuel; [lia|].
@@ -212,7 +218,7 @@ Qed.
 
 Lemma key_words_word : forall fuel n, Forall word (key_words fuel n).
 Proof.
-  induction fuel; intros n; simpl; [constructor|].
+  induction fuel; intros n; [constructor|]. rewrite key_words_unfold.
   constructor; [apply N.mod_lt; discriminate|]. destruct (n / w32 =? 0); [constructor|apply IHfuel].
 Qed.
 
@@ -220,7 +226,7 @@ Lemma key_of_word : forall n, Forall word (key_of n).
 Proof. intros; apply key_words_word. Qed.
 
 Lemma key_of_nonempty : forall n, key_of n <> [].
-Proof. intros n. unfold key_of. simpl. discriminate. Qed.
+Proof. intros n. unfold key_of. rewrite key_words_unfold. discriminate. Qed.
 
 (* no superfluous leading word: the most significant word of a non-zero seed's key is not zero
    (so the key has (bits - 1) / 32 + 1 words, as random_seed computes), and the key of 0 is [0] *)
@@ -229,7 +235,7 @@ Lemma key_words_last : forall fuel n, n < 2 ^ (32 * N.of_nat fuel) -> n <> 0 ->
 Proof.
   induction fuel; intros n H Hn.
   - change (2 ^ (32 * N.of_nat 0)) with 1 in H. lia.
-  - cbn [key_words]. pose proof (N.div_mod n w32 ltac:(discriminate)) as DM.
+  - rewrite key_words_unfold. pose proof (N.div_mod n w32 ltac:(discriminate)) as DM.
     destruct (N.eqb_spec (n / w32) 0) as [E|E].
     + cbn [last]. rewrite E in DM. lia.
     + assert (B : n / w32 < 2 ^ (32 * N.of_nat fuel)).
@@ -238,7 +244,7 @@ Proof.
         replace (32 + 32 * N.of_nat fuel) with (32 * N.of_nat (S fuel)) by lia. exact H. }
       specialize (IHfuel _ B E).
       destruct fuel as [|f]; [change (2 ^ (32 * N.of_nat 0)) with 1 in B; apply N.lt_1_r in B; contradiction|].
-      cbn [key_words] in *. exact IHfuel.
+      rewrite key_words_unfold in *. exact IHfuel.
 Qed.
 
 Lemma key_of_last : forall n, n <> 0 -> last (key_of n) 0 <> 0.
